@@ -59,6 +59,25 @@ pub fn test_case(case: &SerCase) -> TestResult {
         let (mut p2, rest) = unsafe { Predictor::deserialize_from_slice_unchecked(&joined) }
             .map_err(|e| format!("deserialize_from_slice_unchecked rejects self-produced bytes: {e}"))?;
         ensure_eq!(rest, &case.trailing[..], "rest after the serialised predictor (tags={tags})");
+        // several predictors stored back to back in one buffer - what the returned rest is for:
+        // predictor ++ predictor ++ trailing bytes, and single bytes that look like markers
+        {
+            let mut twice = bytes.clone();
+            twice.extend_from_slice(&bytes);
+            twice.extend_from_slice(&case.trailing);
+            let (_, rest1) = unsafe { Predictor::deserialize_from_slice_unchecked(&twice) }
+                .map_err(|e| format!("deserialize (two predictors in one buffer): {e}"))?;
+            ensure!(rest1 == &twice[bytes.len()..], "rest after the first of two serialised predictors has {} bytes instead of {} (tags={tags})", rest1.len(), twice.len() - bytes.len());
+            let (_, rest2) = unsafe { Predictor::deserialize_from_slice_unchecked(rest1) }
+                .map_err(|e| format!("deserialize (second of two predictors): {e}"))?;
+            ensure_eq!(rest2, &case.trailing[..], "rest after the second of two serialised predictors (tags={tags})");
+            for b in [0u8, 1, 2, 0xff] {
+                let mut one = bytes.clone();
+                one.push(b);
+                let (_, r) = unsafe { Predictor::deserialize_from_slice_unchecked(&one) }.map_err(|e| format!("deserialize (+ one byte {b:#04x}): {e}"))?;
+                ensure_eq!(r, &[b][..], "rest after a serialised predictor followed by the single byte {b:#04x} (tags={tags})");
+            }
+        }
         if tags {
             p.store_tag_scores(true);
             p2.store_tag_scores(true);
